@@ -52,7 +52,7 @@ Definition inherits_of (r : raw_cfg) : list (str * str) :=
   map (fun kv => (key_new (fst kv), key_new (snd kv))) (match r_inherits r with Some l => l | None => [] end).
 
 (** the modelled domain: names (after trimming) are non-empty and contain neither '.' nor '/',
-    `locales-dir` is relative and non-empty, `inherits` keys are distinct *)
+    `locales-dir` is non-empty, `inherits` keys are distinct *)
 Definition plain_name (s : str) : bool :=
   negb (match s with [] => true | _ => false end) && forallb (fun c => negb (c =? dot) && negb (c =? slash)) s.
 Definition in_domain (c : case) : bool :=
@@ -61,7 +61,7 @@ Definition in_domain (c : case) : bool :=
   && forallb plain_name (map key_new (match r_namespaces r with Some l => l | None => [] end))
   && match r_default r with Some d => plain_name (key_new d) | None => true end
   && match r_locales_dir r with
-     | Some (c0 :: _) => negb (c0 =? slash)
+     | Some (_ :: _) => true          (* relative or absolute (PathBuf::push replaces the path) *)
      | Some [] => false
      | None => true
      end
